@@ -2795,8 +2795,13 @@ impl<'a> Visitor<'a, '_, Error> for JSONValidator<'a> {
         Ok(())
       }
       Value::Number(n) => {
-        if is_ident_uint_data_type(self.state.cddl, ident) && n.is_u64() {
-          return Ok(());
+        if is_ident_uint_data_type(self.state.cddl, ident)
+          || matches!(lookup_ident(ident.ident), Token::UNSIGNED)
+        {
+          // uint / unsigned admit only non-negative integers
+          if n.is_u64() {
+            return Ok(());
+          }
         } else if is_ident_nint_data_type(self.state.cddl, ident) {
           if let Some(n) = n.as_i64() {
             if n.is_negative() {
@@ -2825,10 +2830,12 @@ impl<'a> Visitor<'a, '_, Error> for JSONValidator<'a> {
             return Ok(());
           }
         } else if let Some(kind) = ident_numeric_kind(self.state.cddl, ident) {
+          // integers above i64::MAX are integers too
+          let is_int = n.is_i64() || n.is_u64();
           let matches_kind = match kind {
-            NumericKind::Int => n.is_i64(),
+            NumericKind::Int => is_int,
             NumericKind::Float => n.is_f64(),
-            NumericKind::Both => n.is_i64() || n.is_f64(),
+            NumericKind::Both => is_int || n.is_f64(),
           };
           if matches_kind {
             return Ok(());
